@@ -863,7 +863,7 @@ def c08(ck):
         L = codec.lang(lid)
         wide = max(len(chars_of(w)) for w in L["wb"]) <= 2      # lists of one- or two-character words
         if wide:
-            parts, count, lo, hi = (8 if quick else 32), (1 << 18 if quick else 1 << 21), 2, 4
+            parts, count, lo, hi = (8 if quick else 32), (1 << 18 if quick else 1 << 20), 2, 4
         else:
             parts, count, lo, hi = 1, (1 << 14 if quick else 1 << 17), 1, 9
         for part in range(parts):
